@@ -1129,3 +1129,48 @@ def svc_subns_fixed_window():
 
 
 SCENARIOS = {k: v for k, v in list(globals().items()) if k.startswith("svc_") and callable(v)}
+
+
+def svc_arrivals_tied_with_completions():
+    """Clients with think time: requests are created ahead of time and stamped for exactly the instants at
+    which in-service work completes (k * service time), while other requests are still queued - for
+    AsyncServer and for Server with one and two workers."""
+    import random as _r
+    from happysimulator import Entity, Event, Instant, Simulation, Sink
+    from happysimulator.components.server import Server
+    from happysimulator.components.server.async_server import AsyncServer
+    from happysimulator.distributions.constant import ConstantLatency
+
+    class Dispatcher(Entity):
+        def __init__(self, name, server, plan):
+            super().__init__(name)
+            self.server, self.plan = server, plan
+
+        def handle_event(self, event):
+            k = event.context["k"]
+            return [Event(time=self.now + d, event_type="Request", target=self.server,
+                          context={"metadata": {"rid": f"{k}-{i}"}}) for i, d in enumerate(self.plan[k])]
+
+    out = {}
+    S = 0.05
+    for tag, mk in (("async", lambda: AsyncServer(name="srv", cpu_work_distribution=ConstantLatency(S))),
+                    ("server1", lambda: Server("srv", concurrency=1, service_time=ConstantLatency(S), downstream=Sink("sink"))),
+                    ("server2", lambda: Server("srv", concurrency=2, service_time=ConstantLatency(S), downstream=Sink("sink")))):
+        _r.seed(91)
+        srv = mk()
+        # burst at 0 (three requests stamped 0, 10 ms, 20 ms), then stragglers created at 0.07 / 0.12 s and
+        # stamped for 0.10 / 0.15 / 0.20 s = completion instants of the queued work
+        plan = {0: [0.0, 0.01, 0.02], 1: [0.03, 0.08], 2: [0.03, 0.08, 0.13]}
+        d = Dispatcher("disp", srv, plan)
+        ents = [srv, d] + ([srv.downstream] if getattr(srv, "downstream", None) is not None else [])
+        sim = Simulation(entities=ents, end_time=Instant.from_seconds(5.0))
+        sim.schedule(Event(time=Instant.Epoch, event_type="burst", target=d, context={"k": 0}))
+        sim.schedule(Event(time=Instant.from_seconds(0.07), event_type="late", target=d, context={"k": 1}))
+        sim.schedule(Event(time=Instant.from_seconds(0.12), event_type="late", target=d, context={"k": 2}))
+        sim.run()
+        st = getattr(srv, "stats", None)
+        out[tag] = getattr(st, "requests_completed", None)
+    return out
+
+
+SCENARIOS["svc_arrivals_tied_with_completions"] = svc_arrivals_tied_with_completions
